@@ -2094,6 +2094,10 @@ fn check_definition<'a>(
     let mut variables = HashSet::new();
     free_variables(&definitions[current_index].2, 0, &mut variables);
 
+    // Visit the free variables in a fixed order so the errors are reported deterministically.
+    let mut variables = variables.into_iter().collect::<Vec<_>>();
+    variables.sort_unstable();
+
     // For each free variable bound by the let, check the corresponding definition.
     for variable in variables {
         if variable < definitions.len() {
